@@ -51,9 +51,9 @@ type Case struct {
 
 type opts struct {
 	optional, explicit, application, private, set, omitempty bool
-	def                                                       *int64
-	tag                                                       int // -1: none
-	strType, timeType                                         string
+	def                                                      *int64
+	tag                                                      int // -1: none
+	strType, timeType                                        string
 }
 
 func parseOpts(p string) opts {
